@@ -7,6 +7,9 @@ pub mod c07;
 pub mod c11;
 pub mod c13;
 pub mod c14;
+pub mod c15;
+pub mod c16;
+pub mod c17;
 pub mod c18;
 pub mod c19;
 pub mod c20;
@@ -210,6 +213,18 @@ pub fn dispatch(a: &Args) -> Option<(Acc, RunMeta)> {
             acc.merge(c18::run(a));
             acc.merge(c06::run(a).0);
             Some((acc, meta(a, "catch_unwind + panic hook around every library call of: (1) unrestricted histories (all operations on all paths incl. root targets and root removal, wrong types, write scripts with seeks, read scripts with offsets i64::MIN..i64::MAX / u64::MAX) on all configurations; (2) handle scripts with extreme offsets on Mem/Phys/Alt/Ovl handles; (3) handles used after their file / parent directory was removed, replaced or moved; (4) PhysicalFS over directories prepared with std::fs (non-UTF-8 names, dangling symlinks, symlink loops, self links); (5) every operation on every path of the EmbeddedFS fixtures; (6) the join sweep; (7) the async port (same histories through AsyncVfsPath on a tokio current-thread executor); distinct = distinct observable states / scripts / scenarios", &["copy_dir/move_dir into the source's own subtree is never generated (documented non-termination)", "OverlayFS::new(&[]) is the documented panic and is never called", "dev profile: overflow checks and debug assertions on; thorough also runs the release profile"])))
+        }
+        "C15" => {
+            let acc = c15::run(a);
+            Some((acc, meta(a, "per script: one generated history (typed C01/C09 domain, reader seek/read scripts, write scripts without seek, generated overlay pre-population) is executed in lock-step on a sync configuration and on 4 (quick) / 8 (thorough) async twins (AsyncMemoryFS/AsyncPhysicalFS/AsyncAltrootFS/AsyncOverlayFS, same stacking) running on a tokio current-thread executor behind PendingFs, which makes every AsyncFileSystem call and every directory-stream item return Pending according to a schedule (none, once everywhere, random, bursts); outcome, error class, return values (read-handle script results, read_dir name sets, walk_dir item sets and directory-before-content order) and the full snapshot after every step must agree between sync and every async twin; plus a complete sweep over all 2^M pending patterns of the walk_dir stream on small trees (M <= 11 quick / 14 thorough); distinct = distinct observable states + distinct pending patterns", &["timestamps are not compared (AsyncMemoryFS does not implement them)", "no path is observed while a write handle to it is open", "executor: tokio current-thread (the crate's writer Drop is incompatible with futures::executor::block_on)"])))
+        }
+        "C16" => {
+            let acc = c16::run(a);
+            Some((acc, meta(a, "generated concurrent programs (2-3 threads x 1-3 operations from create_dir, create_file+write+drop, append+write+drop, remove_file, remove_dir, exists, metadata, read_dir, open+read over 2-3 overlapping paths, small pre-state) on one MemoryFS; every thread is a real OS thread that parks at each verif-hooks yield point (before every lock acquisition) and at every call boundary until the controller hands it the baton; per program: depth-first sweep of ALL schedules while it fits the cap (then 'programs_swept_exhaustively'), otherwise random + PCT schedules; every distinct (results, final tree) outcome is checked by re-executing candidate sequential orders of the same library calls (path call, handle publish) on a fresh MemoryFS — program order respected — until one reproduces all results and the final tree; final tree checked for well-formedness; panics and deadlocks (threads that never come back from a call) are violations; distinct = distinct schedules (sequence of (thread, yield label))", &["granularity of the specification: one library call (a path method, or the flush/drop of a write handle) is one atomic step; a write session is create/append-open followed later by publish, exactly as the sequential API defines it", "baton mode preempts only at hooked lock acquisitions and call boundaries", "real-time order is not demanded (C16 asks for program order)"])))
+        }
+        "C17" => {
+            let acc = c17::run(a);
+            Some((acc, meta(a, "path tuples (2-4 threads, depth 1-4 over names {a,b}, prefixes of every length shared) of concurrent create_dir_all calls; MemoryFS, Alt(Mem), Ovl[Mem,Mem], Alt(Ovl[Mem,Mem]) under the baton scheduler (depth-first sweep of ALL schedules per tuple while it fits the cap, else random + PCT) with yield points before every MemoryFS lock acquisition; PhysicalFS, Alt(Phys), Ovl[Phys,Phys] free-running with barrier start and random yield/spin/sleep injected at the PhysicalFS::create_dir hook; every call must return Ok and afterwards every requested path and ancestor must be a directory; distinct = distinct schedules (baton) + distinct physical rounds", &["baton mode preempts only at hooked lock acquisitions; physical rounds sample real preemption", "no concurrent removals and no files in the way (as the property states)"])))
         }
         "C11" => {
             let acc = c11::run(a);
